@@ -9,7 +9,14 @@ def obligations(tier):
                     stubs=["events_immediate_get/network_get/network_select/timer_min/timer_get -> nondeterministic abstract scheduler with scalar monitors", "mpool_eventrec_malloc/free -> tracked 8-record pool"]))
     obs.append(dict(name="spin-status-interrupt", harness="dispatch.c", entry="h_spin", defs=["MAXD=%d" % (md - 2)], unwind=12, unwindset=["events_run_internal#0:%d" % (md + 2), "events_run_internal#1:%d" % (md + 3), "libcperciva_events_spin#0:%d" % (md + 6)],
                     replace=["mpool_eventrec_malloc:vh_rec_malloc", "mpool_eventrec_free:vh_rec_free"], backends=["cadical"], timeout=1800 if T else 280, claim="events_spin: stops on the first non-zero status (returned unchanged) or interrupt or when the completion flag is set; flag cleared", bounds="<= %d callbacks, <= 3 runs" % (md - 2), stubs=["abstract scheduler"]))
+    for npre in ([2] if not T else [2, 3]):
+      for op, opn in ((0, "register"), (1, "cancel"), (2, "get")):
+        obs.append(dict(name="immediate-queue-%s-n%d" % (opn, npre), harness="imm.c", entry="h_imm", defs=["NPRE=%d" % npre, "TQCAP=%d" % (npre + 1), "OP=%d" % op], unwind=36, model_inc=["tailq"],
+                        replace=["mpool_eventq_malloc:vh_q_malloc", "mpool_eventq_free:vh_q_free"], backends=["cadical", "kissat"], timeout=1800 if T else 280,
+                        claim="events_immediate.c: from every state with <= %d pending events (arbitrary priorities 0..31, minq anywhere the invariant allows), one %s re-establishes the invariant, and draining yields exactly the model's events in priority order, FIFO within a priority, then NULL" % (npre, opn),
+                        bounds="<= %d pending events before the step; all priorities, all admissible minq" % npre, stubs=["TAILQ macros (external/queue/queue.h) -> sequence model, differential-tested", "events_mkrec/events_freerec -> tracked records", "mpool_eventq_malloc/free -> tracked pool"]))
     return obs
+SELFTESTS = [dict(name="tailq-model-vs-queue-h", srcs=["/verif/models/tailq/selftest_tailq.c"], what="models/tailq/queue.h (sequence model of TAILQ) == external/queue/queue.h on 2,000,000 random insert/remove operations over 3 lists")]
 TRUSTED = ["CBMC 6.11 C semantics", "cadical"]
-ASSUMPTIONS = ["priority/FIFO order inside the immediate source, deadline order of timers and the millisecond rounding are properties of the sources: rounding is decided in C04 network-select, heap order in C13; events_immediate.c and events_timer.c have no obligation of their own yet"]
+ASSUMPTIONS = ["priority/FIFO order inside the immediate source, deadline order of timers and the millisecond rounding are properties of the sources: rounding is decided in C04 network-select, heap order in C13; events_timer.c (events_timer_min arithmetic) has no obligation of its own"]
 EXPLANATION = ""
